@@ -35,6 +35,9 @@ pub fn prop_info(prop: &str) -> PropInfo {
     ];
     match prop {
         "C04" => PropInfo { level: "fault_enumeration", rule: sched_rule, assumptions: common, budget: (45.0, 600.0) },
+        // an orbit is eight runs per block and the policy oracles run stock revm two or three times
+        // per block: fewer blocks per second than elsewhere, so a little more time
+        "C06" | "C13" => PropInfo { level: "exploration", rule: sched_rule, assumptions: common, budget: (55.0, 600.0) },
         _ => PropInfo { level: "exploration", rule: sched_rule, assumptions: common, budget: (40.0, 600.0) },
     }
 }
